@@ -118,7 +118,7 @@ theorem tailOK_succ (fuel : Nat) (ih : TailOK fuel) : TailOK (fuel + 1) where
     cases e with
     | vec elems =>
       simp only [compileQuasi] at h
-      cases h1 : quasiVec fuel st c (base + 3) elems depth with
+      cases h1 : quasiVec fuel st c (base + 6) elems depth with
       | error e => simp [h1] at h
       | ok r1 =>
         obtain ⟨st1, code1⟩ := r1
